@@ -219,6 +219,7 @@ type world struct {
 	height    uint64
 	contracts []string
 	suicidal  []string // deployed contracts whose runtime is a bare SELFDESTRUCT(beneficiary)
+	shared    int      // >0: this history registers several proposers with one reward account (in its first block)
 	nonces    map[int]uint64
 }
 
@@ -289,6 +290,20 @@ func genBlock(t *rapid.T, w *world, salt string, label string) ([]*types.Transac
 		}
 		stats.Class("block:selfdestructor_called_and_paid")
 	}
+	// several proposers applying in one block with the same reward account and unrelated stakes: once they are
+	// mature, the reward of that account is a sum over several registry entries
+	if w.shared == 1 {
+		w.shared = 2
+		acc := blockgen.Addr(4 + rapid.IntRange(0, 1).Draw(t, label+"_sharedAcc"))
+		for _, src := range rapid.Permutation([]int{0, 1, 2, 3}).Draw(t, label+"_sharedSrcs")[:rapid.IntRange(3, 4).Draw(t, label+"_nShared")] {
+			w.nonces[src]++
+			stake := uint64(2000 + rapid.IntRange(0, 3000).Draw(t, label+"_sharedStake"))
+			md := txgen.MinerData{Type: 1, Stake: stake, PublicKey: "0x0102", VrfPublicKey: []byte{3, 4}, Account: acc}
+			tx := txgen.MinerApply(txgen.K(src), md, w.nonces[src], fmt.Sprintf("%s-%s-shared%d", salt, label, src))
+			out = append(out, blockgen.Tx{Tx: tx, Kind: "miner_apply", Desc: fmt.Sprintf("apply(K%d,proposer,stake%d,acc=shared)", src, stake)})
+		}
+		stats.Class("block:proposers_sharing_a_reward_account")
+	}
 	var txs []*types.Transaction
 	for _, x := range out {
 		txs = append(txs, x.Tx)
@@ -323,12 +338,18 @@ func TestBlockExecutionIsDeterministic(t *testing.T) {
 		saltCounter++
 		salt := fmt.Sprintf("c01-%d-%d", os.Getpid(), saltCounter)
 		w := &world{root: genesisRoot, nonces: map[int]uint64{}}
+		if rapid.IntRange(0, 5).Draw(t, "sharedRewardAccount") == 0 {
+			w.shared = 1
+		}
 		sc := &script{Salt: salt}
 		var parentOutcomes []outcome
 		// block 1: funding + a few contract deployments
 		var b1 []*types.Transaction
 		for i := 0; i < 4; i++ {
 			amt := rapid.SampledFrom([]string{"5", "450", "2500", "100000"}).Draw(t, fmt.Sprintf("fund%d", i))
+			if w.shared > 0 {
+				amt = "100000"
+			}
 			b1 = append(b1, txgen.Transfer(txgen.Faucets[0], nil, [][2]string{{blockgen.Addr(i), amt}}, uint64(i+1), fmt.Sprintf("%s-f%d", salt, i)))
 		}
 		nDeploy := rapid.IntRange(0, 3).Draw(t, "nDeploy")
@@ -369,13 +390,16 @@ func TestBlockExecutionIsDeterministic(t *testing.T) {
 		for b := 0; b < nBlocks; b++ {
 			txs, meta := genBlock(t, w, salt, fmt.Sprintf("b%d", b))
 			group := unknownGroup
-			if rapid.Bool().Draw(t, "rewardedBlock") {
+			if rapid.Bool().Draw(t, "rewardedBlock") || (w.shared == 2 && rapid.IntRange(0, 3).Draw(t, "rewardShared") > 0) {
 				group = genesisGroup // rewards are computed and scheduled
 			}
 			castor := byte(rapid.IntRange(1, 3).Draw(t, "castor"))
 			// heights need not be consecutive; a jump past the stake maturity delay makes miners applied
 			// earlier in the history count for election totals and rewards
 			nextHeight := w.height + rapid.SampledFrom([]uint64{1, 1, 1, 350}).Draw(t, "heightInc")
+			if w.shared == 2 && b == 1 {
+				nextHeight = w.height + 350 // the proposers registered in the previous block are mature now
+			}
 			h := hdr(salt, nextHeight, castor, group)
 			base := boot.Exec(w.root, w.height, h, txs, "fullverify")
 			ref := render(base)
